@@ -15,7 +15,8 @@ package main
 // Oracles (real code only, independent of the model):
 //	(a) the call returns within the watchdog (5 s), and does not panic;
 //	(b) tags generated from the grammar whose replacements are brace-free scalars / plain defaults: the result
-//	    equals the harness's own inner-first substitution (evalNode);
+//	    equals the harness's own inner-first substitution (evalNodes); a difference in a case where an empty map / list
+//	    without default was substituted carries the signature placeholder-empty-container-kept (defect repaired in 729842a);
 //	(c) a result without error contains no `${…}` match;
 //	(d) end to end: Run binds the same string (only for "plain" results), or fails when the direct call fails.
 
@@ -658,12 +659,25 @@ func phCorpus(w *hx.Writer) {
 			"l", list, "m", phCfgOf("k", "v", "j", 2, "q", cMap()), "p", "b", "ab", "hit", "c", "x:y")
 	}
 	for _, t := range []string{"", "plain", "${a}", "${A}", "${s}${a}", "x${s}y${f}z", "${zz}", "${zz:dd}", "${zz:}", "${n:dd}", "${e:dd}", "${el:dd}",
+		"${e}", "${el}", "${el:}", "${e:}", "x${e}y${el}z", "${n}",
 		"${m.k}", "${m.q:d}", "${m.k.z:d}", "${m}", "${l}", "${l.0}", "${l.1}", "${l.+1}", "${l.01}", "${l.5:d}", "${l.x:d}", "${a${p}}", "${zz:${s}}",
 		"${zz:${zz:${a}}}", "${${zz:a}}", "${zz:'q'}", "${zz:\"q\"}", "${zz:''}", "${zz:TRUE}", "${zz:False}", "${zz:1.10}", "${zz:007}", "${zz:+5}", "${zz:-0}",
 		"${zz:1000000000000000000000}", "${zz:0.00001}", "${zz:123456789012345}", "${zz:1234567890123456}", "${zz:[a,b]}", "${zz:map[a:b]}", "${zz:${l}}",
 		"${zz:a:b}", "${c}", "${zz${c}}", "${", "${a", "${a}}", "{${a}}", "$${a}", "${${a}", "${a{b}}", "${}", "${:d}", "$", "${a}${", "}${a}{", "${a},required=false",
 		"${zz:x,y}", "a,b", "${t}", "${zz:'}", "${zz:\"}", "${l.-1}", "${l.-1:d}", "#{1+1}${a}", "${m.j}", "${M.K}"} {
 		runPh(phCase{text: t, cfg: base(), tags: []string{"corpus"}, e2e: true}, w)
+	}
+	// structured corpus cases (these carry the substitution oracle): an empty map / list is an absent key
+	phN := func(key string) *phNode { return &phNode{key: []*phNode{{lit: key}}} }
+	phD := func(key, d string) *phNode {
+		return &phNode{key: []*phNode{{lit: key}}, hasD: true, def: []*phNode{{lit: d}}}
+	}
+	for _, ns := range [][]*phNode{{phN("e")}, {phN("el")}, {phD("el", "")}, {phD("e", "")}, {phD("e", "dd")}, {phD("el", "'q'")}, {phN("zz")}, {phN("n")},
+		{{lit: "x"}, phN("e"), {lit: "y"}, phN("el"), {lit: "z"}, phN("m.q")}, {phN("a"), phN("s"), phD("zz", "TRUE")},
+		{{key: []*phNode{{lit: "a"}, phN("p")}}}, {{key: []*phNode{{lit: "zz"}}, hasD: true, def: []*phNode{phN("s"), {lit: "-"}, phD("e", "d")}}}} {
+		var sb strings.Builder
+		renderNodes(ns, &sb)
+		runPh(phCase{text: sb.String(), nodes: ns, cfg: base(), tags: []string{"corpus", "grammar"}, e2e: true}, w)
 	}
 	for _, t := range []string{"${x}", "${:d}", "${}"} {
 		runPh(phCase{text: t, cfg: cMap(), tags: []string{"corpus"}}, w)
